@@ -319,11 +319,17 @@ func TestC41(t *testing.T) {
 		m.Inconclusive("CA variants: " + err.Error())
 		return
 	}
+	if mon.RaceBuild {
+		// race-detector variant: only the shared-CertChecker concurrency stream
+		runConcurrentCerts(m, pool, cas)
+		return
+	}
 	w, werr := getWork()
 	if werr != nil {
 		m.Note("ssh-keygen work dir unavailable: " + werr.Error())
 	}
 
+	runConcurrentCerts(m, pool, cas)
 	runDecide(m, pool, cas)
 	runReenc(m, pool, cas, w)
 	if w != nil {
@@ -362,7 +368,9 @@ func TestC41(t *testing.T) {
 	}
 }
 
-func subjectOf(r *rand.Rand, pool map[string]*poolKey) *poolKey { return pool[mon.Pick(r, subjectNames)] }
+func subjectOf(r *rand.Rand, pool map[string]*poolKey) *poolKey {
+	return pool[mon.Pick(r, subjectNames)]
+}
 
 func runDecide(m *mon.M, pool map[string]*poolKey, cas []*caVariant) {
 	m.Cases("decide", m.N(10000, 200000), func(i int64, r *rand.Rand) {
